@@ -92,7 +92,15 @@ fn with_oracle<T>(prefix: &[bool], f: impl FnOnce() -> T) -> (T, Vec<bool>) {
         }) as Box<dyn FnMut() -> bool>
     });
     rayon::verif_split_oracle::set(Some(oracle));
-    let out = f();
+    // a panic inside the parallel query must not leave the oracle installed
+    let out = match std::panic::catch_unwind(std::panic::AssertUnwindSafe(f)) {
+        Ok(v) => v,
+        Err(p) => {
+            let old = rayon::verif_split_oracle::set(None);
+            arena::with_system(|| drop(old));
+            std::panic::resume_unwind(p);
+        }
+    };
     let old = rayon::verif_split_oracle::set(None);
     arena::with_system(|| drop(old));
     let trace = arena::with_system(|| ex.borrow().trace.clone());
@@ -233,6 +241,7 @@ fn main() {
         i += 1;
     }
     util::install_crash_handler();
+    util::install_quiet_panic_hook();
     let t0 = Instant::now();
     let pool = rayon::ThreadPoolBuilder::new().num_threads(1).build().unwrap();
     let (found, stats, samples) = pool.install(|| {
@@ -272,13 +281,28 @@ fn main() {
                     loop {
                         util::set_crash_descriptor(&format!("engine=split world={} views={} consumer={:?} answers={:?}", si, v.name, consumer, prefix));
                         arena::begin(0);
-                        let ((rows, scalar, after), trace) = {
+                        let attempt = std::panic::catch_unwind(std::panic::AssertUnwindSafe(|| {
                             let mut w = build(spec);
                             let ((rows, scalar), trace) = with_oracle(&prefix, || (v.par)(&mut w, consumer));
                             let after = (viewsets_all_values)(&mut w);
                             arena::with_system(|| ((rows.clone(), scalar, after.clone()), trace))
-                        };
+                        }));
                         let rep = arena::end();
+                        let ((rows, scalar, after), trace) = match attempt {
+                            Ok(x) => x,
+                            Err(p) => {
+                                // an unwinding panic inside the parallel query: the sequential query answered, so this is a
+                                // difference between the two; the rest of this configuration's split trees is unknown
+                                drop(p);
+                                let msg = util::take_last_panic();
+                                let replay_json = format!("{{\"engine\":\"split\",\"tier\":\"{}\",\"world_index\":{},\"world\":{:?},\"views\":\"{}\",\"consumer\":\"{:?}\",\"answers\":{:?}}}", tier, si, spec.tables.iter().map(|t| (t.0, t.1)).collect::<Vec<_>>(), v.name, consumer, prefix).replace('(', "[").replace(')', "]");
+                                if !found.iter().any(|f| f.0 == "par-query-panicked") {
+                                    found.push(("par-query-panicked".to_string(), format!("views {} world {:?} answers {:?}: {}", v.name, spec.tables, prefix, msg), replay_json));
+                                }
+                                *stats.entry("executions").or_default() += 1;
+                                break;
+                            }
+                        };
                         trees += 1;
                         *stats.entry("executions").or_default() += 1;
                         *stats.entry("split_decisions").or_default() += trace.len() as u64;
